@@ -21,7 +21,7 @@ namespace GojaModel.C05.Tie
 open GojaModel
 namespace G
 export GojaModel.Generated.C05_Shapes (facts_strnum
-  facts_includes facts_mathsign facts_parseint whitespaceChars maxIntShift)
+  facts_includes facts_mathsign facts_bigint facts_parseint whitespaceChars maxIntShift)
 end G
 
 def auditedSites : List (String × String × String) := [
@@ -119,6 +119,14 @@ theorem parseint_tie : G.facts_parseint = [
   ("assigns:parseInt", ["cutoff = math.MaxInt64/10 + 1", "cutoff = math.MaxInt64/16 + 1", "cutoff = math.MaxInt64/int64(base) + 1", "maxVal = math.MaxInt64", "n *= int64(base)", "n1 := n + int64(v)", "n = n1", "n = -n"]),
   ("returns:parseInt", ["parseLargeInt(s, base, sign)", "parseLargeInt(s, base, sign)", "_negativeZero, nil", "intToValue(n), nil", "_NaN, err"]),
   ("returns:parseLargeInt", ["_NaN, strconv.ErrSyntax", "valueFloat(n), nil"])
+] := by rfl
+
+/-- runtime.go `bigIntToNumber` (9d4b1ca): `IsInt64()` guard, `intToValue(b.Int64())` within int64, `floatToValue` of the
+big.Float value beyond; `Number(bigint)` goes through it — what `numberOfBigInt` transcribes -/
+theorem bigint_tie : G.facts_bigint = [
+  ("conds:bigIntToNumber", ["b.IsInt64()"]),
+  ("returns:bigIntToNumber", ["intToValue(b.Int64())", "floatToValue(f)"]),
+  ("returns:Runtime.builtin_Number", ["bigIntToNumber((*big.Int)(bigint))", "primValue.ToNumber()", "bigIntToNumber((*big.Int)(t))", "t.ToNumber()", "valueInt(0)"])
 ] := by rfl
 
 end GojaModel.C05.Tie
